@@ -40,6 +40,15 @@ pub fn packaging_strategy() -> BoxedStrategy<Packaging> {
 pub struct ExtraPack {
     pub comp: Comp,
     pub contents: Vec<ContentSpec>,
+    /// pack id class: 0 => 2+k, then 254+k, 256+k, 300+k, 65533+k (k = 0, 1: no collision)
+    #[serde(default)]
+    pub id_class: u8,
+}
+
+impl ExtraPack {
+    pub fn pack_id(&self, k: usize) -> u16 {
+        [2u16, 254, 256, 300, 65533][(self.id_class % 5) as usize] + k as u16
+    }
 }
 
 #[derive(Serialize, Deserialize, Clone, Debug, PartialEq, Eq)]
@@ -59,7 +68,7 @@ pub fn container_strategy(max_extra: usize, dir: BoxedStrategy<DirSpec>) -> Boxe
         comp_strategy(),
         small_content_seq_strategy(),
         prop::collection::vec(
-            (comp_strategy(), small_content_seq_strategy()).prop_map(|(comp, contents)| ExtraPack { comp, contents }),
+            (comp_strategy(), small_content_seq_strategy(), prop_oneof![4 => Just(0u8), 1 => 1u8..5]).prop_map(|(comp, contents, id_class)| ExtraPack { comp, contents, id_class }),
             0..=max_extra,
         ),
         prop::bool::weighted(0.2),
@@ -138,7 +147,7 @@ pub fn build(
     pack_counts.insert(1u16, main_count);
     let mut extras: Vec<jbk::creator::ContentPackCreator<dyn jbk::creator::PackRecipient>> = vec![];
     for (k, ep) in spec.extra_packs.iter().enumerate() {
-        let pack_id = 2 + k as u16;
+        let pack_id = ep.pack_id(k);
         let p = utf8(&dir.join(format!("extra{k}.jbkc")));
         let f: Box<dyn jbk::creator::PackRecipient> = match jbk::creator::AtomicOutFile::new(&p) {
             Ok(f) => f,
@@ -333,4 +342,50 @@ pub fn model_dump(model: &ContainerModel) -> (Dump, Vec<String>, Vec<(u16, u32)>
     let packs = pack_ids.iter().map(|id| (*id, model.pack_counts.get(id).copied().unwrap_or(0) as i64)).collect();
     let dump = Dump { pack_count: 1 + model.pack_counts.len() as u16, packs, indexes, contents, check: "true".into() };
     (dump, index_names(&model.dir), addresses)
+}
+
+/// A one-file container assembled with the low-level creators (ContainerPackCreator,
+/// ContentPackCreator, DirectoryPackCreator, ManifestPackCreator): `packs` content packs (ids 1..),
+/// each carrying `free_data_len` bytes of application free data in the manifest's value store.
+pub fn build_lowlevel(dir: &Path, name: &str, packs: &[(Comp, Vec<ContentSpec>)], free_data_len: usize, dirspec: &DirSpec) -> Result<Built, Failure> {
+    let path = utf8(&dir.join(name));
+    let io = |e: std::io::Error| Failure::new("create-error", format!("low-level container: {e}"));
+    let jb = |e: jbk::creator::Error| Failure::new("create-error", format!("low-level container: {e}"));
+    let mut container = jbk::creator::ContainerPackCreator::new(&path, Default::default()).map_err(io)?;
+    let mut contents: Vec<(jbk::ContentAddress, Vec<u8>)> = vec![];
+    let mut datas = vec![];
+    let mut pack_counts = BTreeMap::new();
+    for (k, (comp, specs)) in packs.iter().enumerate() {
+        let pack_id = k as u16 + 1;
+        let file = container.into_file().map_err(io)?;
+        let mut cp = jbk::creator::ContentPackCreator::new_from_output(file, jbk::PackId::from(pack_id), vendor(), Default::default(), comp.to_jbk()).map_err(io)?;
+        let bytes = resolve_contents(specs);
+        for (c, b) in specs.iter().zip(bytes.iter()) {
+            let a = cp.add_content(make_reader(b, c.source), c.hint.to_jbk()).map_err(io)?;
+            contents.push((a, b.clone()));
+        }
+        pack_counts.insert(pack_id, specs.len() as u32);
+        let (file, mut data) = cp.finalize().map_err(io)?;
+        data.free_data = content_bytes(pack_id as u32 + 4242, free_data_len, Entropy::High);
+        container = file.close(data.uuid).map_err(io)?;
+        datas.push(data);
+    }
+    let addresses: Vec<(u16, u32)> = contents.iter().map(|(a, _)| (a.pack_id.into_u16(), a.content_id.into_u32())).collect();
+    let dmodel = build_model(dirspec, &addresses);
+    let mut dp = jbk::creator::DirectoryPackCreator::new(jbk::PackId::from(0), vendor(), Default::default());
+    let bounds = build_dir(&dmodel).install(&mut dp);
+    let fin = dp.finalize().map_err(io)?;
+    let mut file = container.into_file().map_err(io)?;
+    let dir_data = fin.write(&mut file).map_err(jb)?;
+    container = file.close(dir_data.uuid).map_err(io)?;
+    let mut manifest = jbk::creator::ManifestPackCreator::new(vendor(), Default::default());
+    manifest.add_pack(dir_data, "");
+    for d in datas {
+        manifest.add_pack(d, "");
+    }
+    let mut file = container.into_file().map_err(io)?;
+    let muuid = manifest.finalize(&mut file).map_err(jb)?;
+    container = file.close(muuid).map_err(io)?;
+    container.finalize().map_err(io)?;
+    Ok(Built { main_path: dir.join(name), dir: dir.to_path_buf(), model: ContainerModel { contents, pack_counts, dir: dmodel }, bounds, files: vec![name.to_string()] })
 }
